@@ -938,7 +938,8 @@ def stream_ppoints(ctx, ncases):
                 vals = [C.unfx(t) for t in mo]
                 want = vals[0::3]
                 vec = list(zip(vals[1::3], vals[2::3]))
-                check_angular(ctx, rep, opn, got, want, vec, 360.0, 0.0, 360.0)
+                # 2^N corners are accumulated in complex64: the tolerance grows with their number
+                check_angular(ctx, rep, opn, got, want, vec, 360.0, 0.0, 360.0, tol_scale=1.5e-5 * 2 ** len(names))
 
 
 # ---------------------------------------------------------------------------------------------
@@ -1155,7 +1156,7 @@ def stream_ids(ctx, ncases):
         if badi is not None:
             ctx.disagree("interpolate_dataset: u differs from the model at point %s: %r vs %r" % (badi, gu[badi] if badi >= 0 else None, wu[badi] if badi >= 0 else None), rep)
             continue
-        if not check_angular(ctx, rep, "interpolate_dataset wave_direction", gw, ww, vec, 360.0, 0.0, 360.0):
+        if not check_angular(ctx, rep, "interpolate_dataset wave_direction", gw, ww, vec, 360.0, 0.0, 360.0, tol_scale=1.2e-4):
             continue
         # every *direction* variable is angular, not only the last one of the dataset
         if "meanDirection" not in df:
@@ -1173,22 +1174,40 @@ def stream_ids(ctx, ncases):
 
 
 def run(ctx):
-    stream_wdiff(ctx, ctx.n(80, 1500))
-    stream_penc(ctx, ctx.n(300, 5000))
-    stream_paxis(ctx, ctx.n(400, 6000))
-    stream_pgrid(ctx, ctx.n(100, 1500))
-    stream_pspectra(ctx, ctx.n(100, 1500))
-    stream_ppoints(ctx, ctx.n(150, 2500))
-    stream_iper(ctx, ctx.n(400, 6000))
-    stream_ids(ctx, ctx.n(30, 300))
+    stream_wdiff(ctx, ctx.n(80, 3000))
+    stream_penc(ctx, ctx.n(300, 12000))
+    stream_paxis(ctx, ctx.n(400, 15000))
+    stream_pgrid(ctx, ctx.n(100, 4000))
+    stream_pspectra(ctx, ctx.n(100, 4000))
+    stream_ppoints(ctx, ctx.n(150, 6000))
+    stream_iper(ctx, ctx.n(400, 15000))
+    stream_ids(ctx, ctx.n(30, 800))
 
 
 def replay(ctx, obj):
     B.replay(ctx, obj)
 
 
-READY = False
-LEVEL_TEXT = "in progress"
-LEVEL_NOTE = "in progress"
-TECHNIQUE = "Coq proof + extracted-model correspondence + shift / short-arc / range oracles"
+READY = True
+LEVEL_TEXT = ("Theorems (Coq, all periods > 0, all targets, all grids that are strictly ascending, shorter than one period and with cyclic "
+              "gaps below half a period): range, periodicity and uniqueness of the float modulo and of wrapped_difference; a target any "
+              "number of periods away has the same neighbours, weights and result (one axis and N axes, plain and angular data, both modes, "
+              "every NaN pattern, every grid); every target has two cyclic neighbours i, (i+1) mod n with a weight in [0,1), also in the bin "
+              "that spans the wrap, so no target is out of range and finite data give a value between the neighbours; the weighted "
+              "unit-vector mean of two non antipodal angles lies on the shorter arc (cross products carry the sign of the wrapped difference, "
+              "positive component along the bisector, non zero) and the returned angle represents that vector and lies in [0, period); the "
+              "model's angular result between two present neighbours is exactly that angle (plain and periodic coordinate); "
+              "interpolate_periodic returns f0 + t*wrap(f1-f0) modulo the period with |wrap| <= P/2 in [discont-P, discont), and the caller's "
+              "left/right value outside. The model is tied to /repo by running the extracted model and wrapped_difference, "
+              "enclosing_points_1d / interpolation_weights_1d with a period, interpolate_dataset_along_axis / _grid on direction/longitude axes "
+              "and angular variables, the spectrum wrappers, interpolate_track_data_arrray / interpolate_at_points / interpolate_dataset across "
+              "the antimeridian, interpolate_periodic, interpolate_dataframe_time and Track.interpolate on the same generated inputs.")
+LEVEL_NOTE = ("Not proved: floating point rounding (NdInterpolator accumulates in complex64: angles compared at 1.5e-5 deg x corners / |mean vector|); "
+              "the short-arc theorem is stated for the two-corner mean (one interpolated axis); for N axes only range, shift invariance and "
+              "execution evidence. Premise of the in-range theorems: all cyclic gaps of the grid below half a period (the code measures the bin "
+              "width with wrapped_difference). Validated only by execution: selection of periodic coordinates/data by name, xarray/pandas layout, "
+              "datetime64 handling of tracks and data frames. Trusted: Coq kernel, extraction (R as binary64, libm sin/cos/atan), harness tolerances.")
+TECHNIQUE = "Coq proof (real analysis over the standard library: floor, sin/cos periodicity, atan) + extracted-model correspondence + shift / short-arc / range oracles"
 DESIGN_REF = "DESIGN.md section 5 C14"
+TRUSTED = ["numpy's float modulo is modelled as x - floor(x/p)*p and np.angle as atan2 built from atan by quadrant (theorem angle_represents_vector); validated by execution",
+           "complex64 accumulation in NdInterpolator._periodic_data_interpolator is modelled in exact reals"]
